@@ -19,6 +19,7 @@ from sa.cg import load_cg
 from sa.ir import load_program, strip, walk, lvalue_root, ASSIGN_OPS
 from sa.ps import Engine, Tracker, INT_TYPES
 from sa.report import Finding, Result
+from sa import cfgutil as cu_r7
 
 PROP = "C19"
 ALLOC = {"malloc", "calloc", "realloc"}
@@ -433,6 +434,7 @@ def run(tier):
     rule_R3(res, prog)
     rule_R6(res, prog)
     rule_R3b(res, prog)
+    rule_R7(res, prog)
     res.floor("C19.R1", 150)
     res.floor("C19.R2", 3)
     res.floor("C19.R3", 30)
@@ -960,3 +962,144 @@ def rule_R3b(res, prog):
                                              [p_[1] for p_ in esc[-5:]], pp(own)[:30], L["n"], fld), file=fn.relfile, line=ln)
                         res.instance(rid, "%s:%s %s(&%s): %s written back on every path" % (fn.name, ln, c["fn"], L["n"], pp(own)[:30]), esc is None, finding=f_)
     res.floor(rid, 1)
+
+
+# reviewed sites where an allocation failure is deliberately not an error of the operation (one line of reason each)
+R7_TOLERATED = {
+    ("parseSSLHandshake", "ssl->sid->sessionTicket"):
+        "TLS 1.2 client keeps a copy of the NewSessionTicket only as an optimisation for a later resumption; the source "
+        "comment says so and C19.R6 requires the length to be cleared on that path",
+}
+
+
+def _r7_search(fn,b0,idx0,ttxt,node):
+    # DFS over (block, start index, vstates, sawnull)
+    seen=set()
+    # from the function entry, so that what is known about the returned variable before the allocation is kept;
+    # `armed` = the allocation was executed on this path
+    stack=[(fn.entry,None,frozenset(),None,[],False)]
+    while stack:
+        bid,after,vs,sawnull,path,armed=stack.pop()
+        key=(bid,after,vs,sawnull,armed)
+        if key in seen: continue
+        seen.add(key)
+        b=fn.bmap[bid]
+        vsd=dict(vs)
+        started=after is None
+        ret=None
+        stop=False
+        for i,ln,x in cu_r7.block_exprs(b):
+            if not started:
+                if i==after: started=True
+                continue
+            if i=="c": break
+            for m in walk(x):
+                if m is node:
+                    armed, sawnull = True, None
+                if m.get("k")=="bin" and m["op"]=="=" :
+                    l=strip(m["l"])
+                    if cu_r7.ftext(l)==ttxt or (l is not None and l.get("k")=="var" and l.get("n")==ttxt):
+                        if m is not node and armed: armed, sawnull = False, None
+                    if l is not None and l.get("k")=="var" and "id" in l:
+                        r=strip(m["r"])
+                        while r is not None and r.get("k")=="cast": r=strip(r["e"])
+                        if r is not None and r.get("k")=="int": vsd[l["id"]]="neg" if r["v"]<0 else "nonneg"
+                        elif r is not None and r.get("k")=="un" and r["op"]=="-": vsd[l["id"]]="neg"
+                        else: vsd[l["id"]]="unk"
+            if x.get("k")=="ret":
+                ret=(ln,x); break
+        if ret is not None:
+            if not (sawnull is True and armed): continue
+            ln,x=ret
+            e=strip(x.get("e")) if x.get("e") is not None else None
+            while e is not None and e.get("k")=="cast": e=strip(e["e"])
+            if e is None: continue
+            if e.get("k")=="int" and e["v"]>=0: return (ln,"return %d"%e["v"],[p for p in path[-5:]])
+            if e.get("k")=="var" and vsd.get(e.get("id"))=="nonneg": return (ln,"return %s (non-negative on this path)"%e["n"],[p for p in path[-5:]])
+            continue
+        t=b.get("term")
+        for k,sc in enumerate(b["succ"]):
+            s=sc.get("b")
+            if s is None: continue
+            nvs=dict(vsd); ns=sawnull
+            if t is not None and "c" in t and len(b["succ"])==2:
+                skip=False
+                for (txt,tr,nd) in cu_r7._cond_atoms(t["c"],k==0):
+                    nd0=strip(nd)
+                    isptr = txt==ttxt or (nd0 is not None and nd0.get("k")=="bin" and nd0["op"]=="=" and cu_r7.ftext(strip(nd0["l"]))==ttxt)
+                    if isptr and armed:
+                        # ns: None = not tested since the allocation, True = NULL on this path, False = non-NULL
+                        if tr:
+                            if ns is True: skip=True
+                            ns=False
+                        else:
+                            if ns is False: skip=True
+                            ns=True
+                    if nd0 is not None and nd0.get("k")=="bin" and nd0["op"] in ("<",">=","==","!=",">","<=") :
+                        l=strip(nd0["l"]); r=strip(nd0["r"])
+                        if l is not None and l.get("k")=="bin" and l["op"]=="=": l=strip(l["l"])
+                        if l is not None and l.get("k")=="var" and "id" in l and r is not None and r.get("k")=="int":
+                            op,c=nd0["op"],r["v"]
+                            new=None
+                            if op=="<" and c==0: new="neg" if tr else "nonneg"
+                            if op==">=" and c==0: new="nonneg" if tr else "neg"
+                            if op=="==" and c>=0 and tr: new="nonneg"
+                            if op=="!=" and c>=0 and not tr: new="nonneg"
+                            if op=="==" and c<0 and tr: new="neg"
+                            if op=="!=" and c<0 and not tr: new="neg"
+                            if new is not None:
+                                cur=nvs.get(l["id"])
+                                if cur in ("neg","nonneg") and cur!=new: skip=True
+                                nvs[l["id"]]=new
+                    if nd0 is not None and nd0.get("k")=="var" and "id" in nd0 and not tr and "*" not in (nd0.get("t") or ""):
+                        if nvs.get(nd0["id"])=="neg": skip=True
+                        nvs[nd0["id"]]="nonneg"
+                if skip: continue
+            stack.append((s,None,frozenset(nvs.items()),ns,(path+[t.get("ln") if t else None])[-6:],armed))
+    return None
+
+
+def rule_R7(res, prog):
+    """An allocation failure is reported: in functions returning an integer status, no path on which a tested allocation
+    result was NULL reaches a success return - `return <constant >= 0>` or `return v` with v established non-negative on
+    that path (assigned a non-negative constant, or tested `v < 0` false / `v == 0`).  A stale success code from an
+    earlier step otherwise hides the failure and the caller goes on with output that was never written."""
+    rid = "C19.R7"
+    res.rule(rid, "no path from the NULL outcome of an allocation reaches a success return (integer-status functions)")
+    INT = ("int", "int32", "int32_t", "psRes_t", "psResSize_t", "int16_t", "long")
+    n = 0
+    for fn in sorted(prog.functions.values(), key=lambda f: f.qname):
+        if not fn.blocks or fn.relfile.startswith(("crypto/test", "matrixssl/test", "apps/", "core/test", "core/src/sfzcl")):
+            continue
+        if (fn.ret or "").strip() not in INT:
+            continue
+        for b in fn.blocks:
+            for idx, ln, x in cu_r7.block_exprs(b):
+                for node in walk(x):
+                    tgt = r = None
+                    if node.get("k") == "bin" and node["op"] == "=":
+                        tgt, r = strip(node["l"]), strip(node["r"])
+                    elif node.get("k") == "decl" and "init" in node:
+                        tgt, r = node.get("var"), strip(node["init"])
+                    else:
+                        continue
+                    while r is not None and r.get("k") == "cast":
+                        r = strip(r["e"])
+                    if r is None or r.get("k") != "call" or not alloc_call(r) or tgt is None:
+                        continue
+                    if any(m.get("k") == "bin" and m["op"] == "=" and strip(m["r"]) is node for m in walk(x)):
+                        continue          # a = b = alloc(): judged at the outer assignment
+                    ttxt = cu_r7.ftext(tgt) if tgt.get("k") != "var" else tgt.get("n")
+                    n += 1
+                    hit = _r7_search(fn, b, idx, ttxt, node)
+                    if hit and (fn.name, ttxt) in R7_TOLERATED:
+                        res.instance(rid, "%s:%s %s = alloc (tolerated: %s)" % (fn.name, ln, ttxt[:30], R7_TOLERATED[(fn.name, ttxt)][:60]), True)
+                        continue
+                    f_ = None
+                    if hit:
+                        f_ = Finding(PROP, rid, fn.name, "allocation failure of %s reported as success" % ttxt[:30],
+                                     "%s:%s %s(): when %s = %s(..) fails, the path via lines %s reaches `%s` at line %s: the caller is told "
+                                     "the operation succeeded although its output was not produced" % (
+                                         fn.relfile, ln, fn.name, ttxt[:40], r.get("fn"), hit[2], hit[1], hit[0]), file=fn.relfile, line=ln)
+                    res.instance(rid, "%s:%s %s = %s(..)" % (fn.name, ln, ttxt[:30], r.get("fn")), not hit, finding=f_)
+    res.floor(rid, 150)
